@@ -178,7 +178,13 @@ func randChunks(r gen.R, n int) []int {
 
 // one evaluation of a case; returns violation key ("" if fine) and detail
 func evalCase(data []byte, chunks []int, pairs map[string]struct{}) (key, detail, observed, expected string, timingSensitive bool) {
-	rd := &parserun.Reader{Data: data, Chunks: append([]int(nil), chunks...)}
+	return EvalCase(data, chunks, nil, pairs)
+}
+
+// EvalCase runs the real parser on data under the given chunking and end
+// error and judges what it delivers (also used by C08).
+func EvalCase(data []byte, chunks []int, endErr error, pairs map[string]struct{}) (key, detail, observed, expected string, timingSensitive bool) {
+	rd := &parserun.Reader{Data: data, Chunks: append([]int(nil), chunks...), EndErr: endErr}
 	obs := parserun.Run(rd, false, 20*time.Second)
 	if obs.Hung {
 		return "lifecycle:no-close-within-bound", "parser did not close its channel after the reader returned EOF", fmt.Sprintf("%d items", obs.Items), "EOF then close", true
